@@ -18,14 +18,14 @@ CHECKS = {
     "C10": (
         "exploration",
         "(a) differential monitor: patched Template.compile_nodelist/render vs the saved original Django methods on the same generated stock template families; (b) metamorphic monitor: extends/block/include family of a component program vs the hand-flattened program",
-        "(a) 2k (quick) / 100k (thorough) generated stock families (extends chains, includes, blocks with block.super, for/if/with/autoescape/firstof/cycle, custom tags/filters of a plain Library with quoted arguments, ~8% erroneous) x 2 contexts x engine.debug on/off are compiled and rendered with the patched methods and with the originals captured before django.setup(): output or exception text, Context layers and render-context depth must be identical. (b) 4k / 60k E1 programs whose page / component templates are split - at the top level and inside fill bodies, slot defaults and loop bodies - into base+child(+grandchild)+include families (30% with every page-level tag written through the dynamic component) must render exactly like the flattened program in both modes; a monitor on BlockNode.render excludes families that render a block inside its own render. One listed finding (block state shared between nested extends-based templates) is attributed by a rename-based defect model.",
+        "(a) 2k (quick) / 100k (thorough) generated stock families (extends chains, includes, blocks with block.super, for/if/with/autoescape/firstof/cycle, custom tags/filters of a plain Library with quoted arguments, ~8% erroneous) x 2 contexts x engine.debug on/off are compiled and rendered with the patched methods and with the originals captured before django.setup(): output or exception text, the Context layers (keys and values), the render-context depth, the template binding and context.template_name left on the Context must be identical. (b) 4k / 60k E1 programs whose page / component templates are split - at the top level and inside fill bodies, slot defaults and loop bodies - into base+child(+grandchild)+include families (30% with every page-level tag written through the dynamic component) must render exactly like the flattened program in both modes; a monitor on BlockNode.render excludes families that render a block inside its own render. One listed finding (block state shared between nested extends-based templates) is attributed by a rename-based defect model.",
         "(a) trusts that swapping the two class attributes restores stock behaviour (asserted: the saved functions are Django's own); (b) equivalence is by construction under Django's documented semantics.",
         "DESIGN.md §2 C10",
     ),
     "C03": (
         "exploration",
         "reference-interpreter monitor on binding-site-identifying output (every bound value names its binding site), two page contexts per program (2-run non-interference), caller-Context snapshot monitor; listed findings attributed by exact or token-level defect models",
-        "12k (quick) / 150k (thorough) E1 programs in the scope flavour (x/y/z bound by page context, component data, with/for around tags, between tag and fill and inside templates, kwargs, slot-data aliases, `only`) are rendered in both modes with two page contexts; every printed variable must show the binding the statement selects; the caller's Context (layers and render-context depth) must be unchanged after each top-level render. Two defects of the pinned tree remain listed findings (loop layer forwarded into isolated components; placement / merge order of the layer captured for a fill) with mechanism-keyed classifiers; six further scoping defects were repaired in the repository; any other mismatch is a violation.",
+        "12k (quick) / 150k (thorough) E1 programs in the scope flavour (x/y/z bound by page context, component data, with/for around tags, between tag and fill and inside templates, kwargs, slot-data aliases, `only`) are rendered in both modes with two page contexts; every printed variable must show the binding the statement selects; the caller's Context (layers and render-context depth) must be unchanged after each top-level render. Two further shards decide by construction: loop state (1-3 nested loops around a component tag at page level or inside host components, 0-2 loops between tag and fill; forloop.counter0 along the whole parentloop chain printed by the component template, the implicit body or looped explicit fills must be the loop indices AT THE TAG) and in-place rebinding (random small templates of {% firstof .. as v %} / component tags / with / if / for: what a deferred component and its fill print for v must be the value at the tag). Two defects of the pinned tree remain listed findings (loop layer forwarded into isolated components; placement / merge order of the layer captured for a fill) with mechanism-keyed classifiers; eight further scoping defects were repaired in the repository; any other mismatch is a violation.",
         "Reads the statement leaves open (with between tag and fill in isolated mode; names bound by intermediate components / around the slot in django mode) are not judged; see DESIGN.md §4.",
         "DESIGN.md §2 C03, Appendix A/B",
     ),
@@ -39,7 +39,7 @@ CHECKS = {
     "C04": (
         "exploration",
         "reference-interpreter monitor (rendered classes in first-appearance order) on the parsed delivered document and on the decoded loader JSON; three delivery routes compared",
-        "6k (quick) / 80k (thorough) E1 programs decorated with js/css/Media (shared files, inheritance, dict css, blank js; class names ASCII / non-ASCII / dashed / dotted), wrapped as head+body pages with or without dependency placeholders or bare, are delivered in document and fragment mode through render_dependencies(), the middleware and Component.render(); inline script/style tokens must be exactly those of the rendered classes, once, in order; Media URLs once each; nothing from unrendered classes; no marker/placeholder left; fragment JSON must declare the same set.",
+        "6k (quick) / 80k (thorough) E1 programs decorated with js/css/Media (shared files, single and multiple inheritance, Media.extend = False / [classes], dict css, blank js; class names ASCII / non-ASCII / dashed / dotted), wrapped as head+body pages with or without dependency placeholders or bare, are delivered in document and fragment mode through render_dependencies(), the middleware and Component.render(); inline script/style tokens must be exactly those of the rendered classes, once, in order; Media URLs once each; nothing from unrendered classes; no marker/placeholder left; fragment JSON must declare the same set. Each program is followed by two later pages over the SAME classes (media resolved and cached by then) that render 1-2 of them alone - usually a class others inherit or extend from - and are judged the same way: what a class delivers must not depend on what was rendered before.",
         "html.parser + base64/JSON decoding are the trusted readers; bare pages are judged only for leftovers (nowhere to insert).",
         "DESIGN.md §2 C04",
     ),
@@ -67,14 +67,14 @@ CHECKS = {
     "C01": (
         "exploration",
         "reference-interpreter monitor on token-identifying output of generated component programs, three render routes, logical divergence guard on component instantiations, AST shrinker for witnesses",
-        "9k (quick) / 160k (thorough) generated programs (free growth + decorated skeletons of the hard compositions: slot in default content under a foreign component, fill forwarding 2-4 levels, one slot name filled at three levels, root chains, slots in loops with dynamic names; ~8% erroneous) are rendered by the real library in django and isolated mode through plain tags and through the dynamic component, plus Component.render(slots=str|func) for the first class; every output (or exception class) must equal the reference interpreter's; more than 20x the predicted component instantiations is reported as non-termination.",
+        "9k (quick) / 160k (thorough) generated programs (free growth + decorated skeletons of the hard compositions: slot in default content under a foreign component, fill forwarding 2-4 levels, one slot name filled at three levels, root chains, slots in loops with dynamic names, looped fills whose loop variable shadows a loop around the component tag with a pass-through slot inside; ~8% erroneous) are rendered by the real library in django and isolated mode through plain tags and through the dynamic component, plus Component.render(slots=str|func) for the first class; every output (or exception class) must equal the reference interpreter's; more than 20x the predicted component instantiations is reported as non-termination. One listed finding (the layer captured for a looped fill is hidden by a same-named binding of the enclosing component's template in isolated mode - the mechanism of C03's listed finding seen through slot names) is attributed by an exact defect model.",
         "Trusts the ~300-line reference interpreter (vf/model/interp.py), written from the statement; programs the statement leaves open are skipped and counted.",
         "DESIGN.md §2 C01, §1 E1, Appendix A/B",
     ),
     "C16": (
         "exploration",
         "reference-model monitor over generated class hierarchies (real Component subclasses), access-order metamorphic monitor with fresh class objects per order, pair-rule model, module-based components with real files",
-        "All hierarchies of up to 3 (quick) / 4 (thorough) classes over bases x Media form x extend, plus seeded hierarchies of 4-6 classes with diamonds, are built as real Component subclasses and .media is read in four first-access orders (leaf first, root first, shuffled, through instances): files must equal the reference union per medium, without duplicates, in an order consistent with all declared lists, identically for every order; template/js/css pairs (inline, *_file with real files, None, both) must follow the nearest-definition rule or raise ImproperlyConfigured; components imported from real modules in a temp component dir must give the same resolved paths whatever is read first.",
+        "All hierarchies of up to 3 (quick) / 4 (thorough) classes over bases x Media form x extend, plus seeded hierarchies of 4-6 classes with diamonds, are built as real Component subclasses and .media is read in four first-access orders (leaf first, root first, shuffled, through instances): files must equal the reference union per medium, without duplicates, in an order consistent with all declared lists, identically for every order; template/js/css pairs (inline, *_file with real files, None, both) - the inlined member AND the *_file member read back - must follow the nearest-definition rule or raise ImproperlyConfigured; components imported from real modules in a temp component dir must give the same resolved paths whatever is read first.",
         "Exhaustive only within the stated class-count bound and Media-form catalogue; order judged only for mutually consistent declarations.",
         "DESIGN.md §2 C16",
     ),
@@ -88,7 +88,7 @@ CHECKS = {
     "C20": (
         "exploration",
         "reference walk (os.walk + the statement's rule) vs get_component_files on real temp projects incl. generated Django apps; importlib resolution of returned dotted paths",
-        "3k (quick) / 100k (thorough) temp projects with component dirs configured through COMPONENTS.dirs, legacy STATICFILES_DIRS (plain and tuple form) and app_dirs of generated, really installed apps; underscore-/dot-prefixed files and directories at every level, __init__.py, non-.py files, dotted names, directories named like modules; for each suffix the returned (file, dotted path) multiset must equal the reference and identifier-only paths must resolve through importlib.util.find_spec to the same file.",
+        "3k (quick) / 100k (thorough) temp projects with component dirs configured through COMPONENTS.dirs, legacy STATICFILES_DIRS (plain and tuple form) and app_dirs of generated, really installed apps; up to three component dirs, half of the multi-dir cases with a sibling whose path merely starts with another's (comps / comps_extra); underscore-/dot-prefixed files and directories at every level, __init__.py, non-.py files, dotted names, directories named like modules; for each suffix the returned (file, dotted path) multiset must equal the reference and identifier-only paths must resolve through importlib.util.find_spec to the same file.",
         "Component dirs lie under BASE_DIR and do not overlap; names with consecutive dots are not generated.",
         "DESIGN.md §2 C20",
     ),
@@ -123,14 +123,14 @@ CHECKS = {
     "C15": (
         "exploration",
         "history + executable dict model: exhaustive mutator sequences on real ComponentRegistry/Library, all observers after every step",
-        "Every register/unregister/clear sequence of length 5 (quick) / 6 (thorough) over 3 names (one a protected tag name) x 3 classes, under 5 formatter/protection configurations, is run on a fresh registry with a private Library; after each step all(), get() per name, set(library.tags) and the identity of pre-existing tag functions are compared with a dict model that also predicts the exception class. Exhaustive within the bound; longer two-registry histories are seeded samples.",
+        "Every register/unregister/clear/switch-formatter sequence (the registry's settings are a getter, so the tag a name maps to changes between calls) of length 5 (quick) / 6 (thorough) over 3 names (one a protected tag name) x 3 classes, under 5 formatter/protection configurations, is run on a fresh registry with a private Library; after each step all(), get() per name, set(library.tags) and the identity of pre-existing tag functions are compared with a dict model that also predicts the exception class; a component registered again under a changed formatter may use its old tag, the new one or both, and none once it is unregistered. Exhaustive within the bound; longer two-registry histories are seeded samples.",
         "Private Library instances only; unprotected pre-existing tags colliding with component tags are excluded (DESIGN.md §4).",
         "DESIGN.md §2 C15",
     ),
     "C11": (
         "exploration",
         "differential monitor against the real CPython call: exhaustive signatures x argument sequences through NodeMeta.wrapper_render (fast and fallback validators, plain and spread renderings) and through compiled {% tag %} templates",
-        "All render() signatures with up to 4 (quick) / 5 (thorough) parameters over positional-only / positional-or-keyword / *args / keyword-only / **kwargs with and without defaults, crossed with all argument sequences up to length 4 / 5 over positional, each parameter name, unknown, non-identifier and reserved-word keywords; acceptance, exception class and bindings must equal those of the compiled Python call. Exhaustive within the bound.",
+        "All render() signatures with up to 4 (quick) / 5 (thorough) parameters over positional-only / positional-or-keyword / *args / keyword-only / **kwargs with and without defaults, crossed with all argument sequences up to length 4 / 5 over positional, each parameter name (including keywords named like the *args / **kw parameter itself), unknown, non-identifier and reserved-word keywords; acceptance, exception class and bindings must equal those of the compiled Python call. Exhaustive within the bound.",
         "Trusts CPython's call semantics as the oracle and the fake TagAttr objects that feed resolve_params; a stratified sample goes through real template compilation.",
         "DESIGN.md §2 C11",
     ),
